@@ -744,3 +744,39 @@ def laziness_programs():
         for c in cons:
             out.append((ps + c + "\n", dict(producer=pn, consumer=c.split("\n")[0][:50])))
     return out
+
+# ---------------------------------------------------------------- an exit from each clause of try/except/else/finally inside a loop
+def try_clause_exit_programs():
+    """the abrupt exit (continue, break, return, raise) sits in the try body, in the handler or in the else clause of a
+    try statement with every combination of handler / else / finally, inside a for or while loop, alone or nested in an
+    outer try/finally; the finally bodies must run exactly once on the way out and the loop must go on correctly"""
+    out = []
+    exits = ["continue", "break", "return ('ret', i)", "raise KeyError('k')", "pass"]
+    shapes = [("except", "else", "finally"), ("except", "else"), ("except", "finally"), ("finally",), ("except",)]
+    for shape in shapes:
+        for clause in ("body", "except", "else"):
+            if clause != "body" and clause not in shape: continue
+            for ex in exits:
+                for loop in ("for", "while"):
+                    for nest in (False, True):
+                        L = ["def f():", "    out = []"]
+                        L += ["    for i in range(4):"] if loop == "for" else ["    i = -1", "    while i < 3:", "        i += 1"]
+                        ind = "        "
+                        if nest:
+                            L += [ind + "try:"]; ind += "    "
+                        L += [ind + "try:", ind + "    out.append(('try', i))", ind + "    if i == 0:", ind + "        raise ValueError('v')"]
+                        if clause == "body": L += [ind + "    if i == 2:", ind + "        " + ex]
+                        if "except" in shape:
+                            L += [ind + "except ValueError:", ind + "    out.append(('except', i))"]
+                            if clause == "except": L += [ind + "    " + ex]
+                        if "else" in shape:
+                            L += [ind + "else:", ind + "    out.append(('else', i))"]
+                            if clause == "else": L += [ind + "    if i == 2:", ind + "        " + ex]
+                        if "finally" in shape:
+                            L += [ind + "finally:", ind + "    out.append(('finally', i))"]
+                        if nest:
+                            ind = ind[:-4]; L += [ind + "finally:", ind + "    out.append(('outer-finally', i))"]
+                        L += ["        out.append(('after', i))", "    else:", "        out.append('loop-else')", "    return out"]
+                        L += ["try:", "    print(f())", "except KeyError:", "    print('KeyError')", "except ValueError:", "    print('ValueError')"]
+                        out.append(("\n".join(L) + "\n", dict(shape="/".join(shape), clause=clause, exit=ex, loop=loop, nested=nest)))
+    return out
